@@ -203,6 +203,13 @@ def _init_worker():
 
 def _trace_one(mods, item):
     key, source, opts = item
+    if isinstance(key, str) and key.startswith("after-unsafe:"):
+        # history: the same text was formatted WITHOUT the options first, in this very process (C05 meets C07/C08/C20:
+        # what an earlier call computed under a smaller preserve set must not be replayed)
+        try:
+            mods["main"].format_code(source)
+        except Exception:  # noqa: BLE001
+            pass
     res, err, events = pipeline.trace_format_code(mods, source, **opts)
     slim, cur = [], source
     for e in events:
